@@ -40,6 +40,7 @@ type Contract struct {
 	Params     []string
 	Results    []string
 	Props      []string
+	FrameProps []string
 	Requires   []*Clause
 	Ensures    []*Clause
 	Assigns    []ast.Expr
@@ -138,7 +139,7 @@ func newSpecs() *Specs {
 		Ghosts: map[string]*GhostVar{}, Consts: map[string]ast.Expr{}, Tokens: map[string]int{}, TypeLits: map[string]bool{}, Immutable: map[string]bool{}, AssignSets: map[string]string{}, AssignSetParam: map[string]string{}}
 }
 
-var kwRe = regexp.MustCompile(`^(pkg|func|props|alloc|refine|immutable|assignset|requires|ensures|assigns|loop|assert|inline|trusted|pure|nonnil|let|pred|view|ghost|guarded_by|ufunc|const|overflow|lemma|var|hyp|concl|axiom|end|external)\b`)
+var kwRe = regexp.MustCompile(`^(pkg|func|frameprops|props|alloc|refine|immutable|assignset|requires|ensures|assigns|loop|assert|inline|trusted|pure|nonnil|let|pred|view|ghost|guarded_by|ufunc|const|overflow|lemma|var|hyp|concl|axiom|end|external)\b`)
 
 // rewriteSpec turns the spec surface syntax into a Go expression:
 //
@@ -474,6 +475,11 @@ func (sp *Specs) loadSpecFile(path string, external bool) error {
 			sp.Contracts[key] = c
 			cur = c
 			curLemma = nil
+		case "frameprops":
+			// extra properties the frame (assigns) obligations of this function count for
+			if cur != nil {
+				cur.FrameProps = strings.Fields(rest)
+			}
 		case "props":
 			ps := strings.Fields(rest)
 			if curLemma != nil {
